@@ -99,11 +99,17 @@ type rtJob struct {
 	runs       int
 	myCancel   bool
 	cancelTime time.Time
+	d          time.Duration // the start delay in force when the job was accepted
 }
 
 type rtOp struct {
 	atMs   int
-	cancel int // -1: schedule; >= 0: cancel the job with that index
+	cancel int           // -1: schedule; >= 0: cancel the job with that index; -2: reload with newD as start delay
+	newD   time.Duration // for a reload
+	// atExpiry: the request (schedule or cancel) is made just before the start delay of the job accepted last expires,
+	// while a slow reader holds the runner's lock across that instant - the request and the timer's callback then
+	// queue up for the lock in this order
+	atExpiry bool
 }
 
 type rtCase struct {
@@ -116,7 +122,10 @@ type rtCase struct {
 	jobs     []*rtJob
 	rejected int
 	snaps    map[uuid.UUID]*JobSnap
-	canary   time.Duration // worst lateness of a timer of duration d armed next to the case
+	reloaded  bool
+	blocked   bool
+	contended bool // a request was made at the expiry of a start delay while a slow reader held the lock
+	canary    time.Duration // worst lateness of a timer of duration d armed next to the case
 	errs     []string
 	trace    []string
 }
@@ -145,11 +154,17 @@ func genRTCase(t *rapid.T) *rtCase {
 		if at < 0 {
 			at = 0
 		}
-		if scheduled > 0 && rapid.IntRange(0, 7).Draw(t, "cancelInstead") == 0 {
-			c.ops = append(c.ops, rtOp{at, rapid.IntRange(0, scheduled-1).Draw(t, "cancelTarget")})
+		if scheduled > 0 && rapid.IntRange(0, 9).Draw(t, "reloadInstead") == 0 {
+			// a reload that changes nothing but the start delay: jobs accepted before keep theirs
+			nd := []time.Duration{0, c.d / 2, c.d * 2}[rapid.IntRange(0, 2).Draw(t, "newDelay")]
+			c.ops = append(c.ops, rtOp{atMs: at, cancel: -2, newD: nd})
 			continue
 		}
-		c.ops = append(c.ops, rtOp{at, -1})
+		if scheduled > 0 && rapid.IntRange(0, 7).Draw(t, "cancelInstead") == 0 {
+			c.ops = append(c.ops, rtOp{atMs: at, cancel: rapid.IntRange(0, scheduled-1).Draw(t, "cancelTarget"), atExpiry: rapid.IntRange(0, 5).Draw(t, "atExpiry") == 0})
+			continue
+		}
+		c.ops = append(c.ops, rtOp{atMs: at, cancel: -1, atExpiry: scheduled > 0 && rapid.IntRange(0, 5).Draw(t, "atExpiry") == 0})
 		scheduled++
 	}
 	return c
@@ -172,10 +187,12 @@ func (c *rtCase) run() {
 	pr, err := prunner.NewPipelineRunner(ctx, defs, func(j *prunner.PipelineJob) taskctl.Runner {
 		mu.Lock()
 		rec := byID[j.ID]
-		mu.Unlock()
 		if rec == nil {
+			// a job that starts inside the schedule call (no delay after a reload): the caller adopts this record
 			rec = &rtJob{id: j.ID, idx: -1}
+			byID[j.ID] = rec
 		}
+		mu.Unlock()
 		r := &timedRunner{rec: rec, dur: c.taskDur, cancelCh: make(chan struct{})}
 		r.cond = sync.NewCond(&r.mu)
 		return r
@@ -231,8 +248,54 @@ func (c *rtCase) run() {
 		}
 	}()
 	start := time.Now()
+	curD := c.d
+	// guarded runs one call into the runner; a call that does not return within 10 s means the runner is blocked
+	guarded := func(what string, f func()) bool {
+		done := make(chan struct{})
+		go func() { defer close(done); f() }()
+		select {
+		case <-done:
+			return true
+		case <-time.After(10 * time.Second):
+			c.errs = append(c.errs, "the runner is blocked: "+what+" has not returned for 10 s")
+			c.blocked = true
+			return false
+		}
+	}
 	for _, op := range c.ops {
+		if c.blocked {
+			break
+		}
 		time.Sleep(time.Until(start.Add(time.Duration(op.atMs) * time.Millisecond)))
+		var releaseReader func()
+		if op.atExpiry && op.cancel != -2 && len(c.jobs) > 0 {
+			last := c.jobs[len(c.jobs)-1]
+			if expiry := last.tAfter.Add(last.d); last.d > 0 && time.Until(expiry) > 8*time.Millisecond && time.Until(expiry) < 2*c.d {
+				time.Sleep(time.Until(expiry.Add(-6 * time.Millisecond)))
+				hold, entered := make(chan struct{}), make(chan struct{})
+				var once sync.Once
+				go pr.IterateJobs(func(*prunner.PipelineJob) { once.Do(func() { close(entered); <-hold }) })
+				select {
+				case <-entered:
+					var rel sync.Once
+					releaseReader = func() { rel.Do(func() { close(hold) }) }
+					// let go a while after the expiry; the request below is made before it
+					go func() { time.Sleep(time.Until(expiry.Add(12 * time.Millisecond))); releaseReader() }()
+					c.contended = true
+				case <-time.After(time.Second):
+					close(hold)
+				}
+			}
+		}
+		if op.cancel == -2 {
+			nd := def
+			nd.StartDelay = op.newD
+			curD = op.newD
+			pr.ReplaceDefinitions(&definition.PipelinesDef{Pipelines: definition.PipelinesMap{"p": nd}})
+			c.trace = append(c.trace, fmt.Sprintf("+%dms reload start_delay=%s", op.atMs, op.newD))
+			c.reloaded = true
+			continue
+		}
 		if op.cancel >= 0 {
 			if op.cancel < len(c.jobs) {
 				j := c.jobs[op.cancel]
@@ -240,15 +303,21 @@ func (c *rtCase) run() {
 				j.myCancel = true
 				j.cancelTime = time.Now()
 				j.mu.Unlock()
-				_ = pr.CancelJob(j.id)
+				if !guarded("CancelJob", func() { _ = pr.CancelJob(j.id) }) {
+					break
+				}
 				c.trace = append(c.trace, fmt.Sprintf("+%dms cancel #%d", op.atMs, op.cancel))
 			}
 			continue
 		}
 		arm()
-		rec := &rtJob{idx: len(c.jobs), tBefore: time.Now()}
+		rec := &rtJob{idx: len(c.jobs), tBefore: time.Now(), d: curD}
 		// the record must be known before the job can start; it cannot start before its delay
-		job, err := pr.ScheduleAsync("p", prunner.ScheduleOpts{})
+		var job *prunner.PipelineJob
+		var err error
+		if !guarded("ScheduleAsync", func() { job, err = pr.ScheduleAsync("p", prunner.ScheduleOpts{}) }) {
+			break
+		}
 		rec.tAfter = time.Now()
 		if err != nil {
 			c.rejected++
@@ -257,20 +326,34 @@ func (c *rtCase) run() {
 		}
 		rec.id = job.ID
 		mu.Lock()
-		byID[job.ID] = rec
+		if ex := byID[job.ID]; ex != nil {
+			ex.mu.Lock()
+			ex.idx, ex.tBefore, ex.tAfter, ex.d = rec.idx, rec.tBefore, rec.tAfter, rec.d
+			ex.mu.Unlock()
+			rec = ex
+		} else {
+			byID[job.ID] = rec
+		}
 		mu.Unlock()
 		c.jobs = append(c.jobs, rec)
 		c.trace = append(c.trace, fmt.Sprintf("+%dms schedule -> #%d", op.atMs, rec.idx))
 	}
+	if c.blocked {
+		return
+	}
 	// wait until nothing is waiting or running any more
-	limit := time.Now().Add(time.Duration(len(c.jobs)+2)*(c.d+c.taskDur) + 3*time.Second)
+	limit := time.Now().Add(time.Duration(len(c.jobs)+2)*(2*c.d+c.taskDur) + 3*time.Second)
 	for {
 		busy := false
-		pr.IterateJobs(func(j *prunner.PipelineJob) {
-			if (j.Start == nil && !j.Canceled) || (j.Start != nil && !j.Completed && !j.Canceled) {
-				busy = true
-			}
-		})
+		if !guarded("IterateJobs", func() {
+			pr.IterateJobs(func(j *prunner.PipelineJob) {
+				if (j.Start == nil && !j.Canceled) || (j.Start != nil && !j.Completed && !j.Canceled) {
+					busy = true
+				}
+			})
+		}) {
+			return
+		}
 		if !busy || time.Now().After(limit) {
 			break
 		}
@@ -297,7 +380,15 @@ func (c *rtCase) check() (violations []string, upperJudged bool, classes map[str
 	if eps > 120*time.Millisecond {
 		eps = 120 * time.Millisecond
 	}
-	upperJudged = c.canary < eps/8
+	// (after a reload of the delay a job without delay may rightly wait behind an older one that still has its
+	// delay pending: the upper bound is judged for unchanged definitions only)
+	upperJudged = c.canary < eps/8 && !c.reloaded && !c.contended
+	if c.contended {
+		classes["request-at-expiry-behind-slow-reader"]++
+	}
+	if c.reloaded {
+		classes["reload-of-start-delay"]++
+	}
 	type started struct {
 		j     *rtJob
 		start time.Time
@@ -318,11 +409,11 @@ func (c *rtCase) check() (violations []string, upperJudged bool, classes map[str
 		j.mu.Unlock()
 		if !firstRun.IsZero() {
 			// lower bound, robust under any load
-			if firstRun.Sub(j.tBefore) < c.d {
-				violations = append(violations, fmt.Sprintf("job #%d ran %s after it was requested, its start delay is %s", j.idx, firstRun.Sub(j.tBefore).Round(time.Millisecond), c.d))
+			if firstRun.Sub(j.tBefore) < j.d {
+				violations = append(violations, fmt.Sprintf("job #%d ran %s after it was requested, its start delay is %s", j.idx, firstRun.Sub(j.tBefore).Round(time.Millisecond), j.d))
 			}
-			if js.Start != nil && js.Start.Sub(js.Created) < c.d {
-				violations = append(violations, fmt.Sprintf("job #%d: start - created = %s, its start delay is %s", j.idx, js.Start.Sub(js.Created).Round(time.Millisecond), c.d))
+			if js.Start != nil && js.Start.Sub(js.Created) < j.d {
+				violations = append(violations, fmt.Sprintf("job #%d: start - created = %s, its start delay is %s", j.idx, js.Start.Sub(js.Created).Round(time.Millisecond), j.d))
 			}
 			order = append(order, started{j, firstRun})
 			if js.Canceled && !myCancel {
@@ -350,7 +441,7 @@ func (c *rtCase) check() (violations []string, upperJudged bool, classes map[str
 	// upper bound: once the delay has passed the job starts as soon as the slot is free
 	sort.Slice(order, func(a, b int) bool { return order[a].start.Before(order[b].start) })
 	for i, s := range order {
-		ready := s.j.tAfter.Add(c.d)
+		ready := s.j.tAfter.Add(s.j.d)
 		bound := ready
 		if i > 0 {
 			prev := order[i-1].j
@@ -377,8 +468,14 @@ func (c *rtCase) check() (violations []string, upperJudged bool, classes map[str
 }
 
 // TestC07Real: start delay is a lower bound and adds no extra delay; replace debounces (real timers).
-func TestC07Real(t *testing.T) {
-	col := ev.Get("C07", "realtime", "real start-delay timers: delay d in [80,300] ms, bursts of 1-6 schedule requests with spacings drawn relative to d (inside / around / across the window), both strategies, queue limits, task durations 0-1.5d so that timers expire while the pipeline is busy, occasional cancels; 16 cases run at the same time; oracle: first task begin >= instant before the request + d and start - created >= d (robust under load); start <= max(accept + d, previous job reported finished) + clamp(0.4 d, 40 ms, 120 ms) (an additional delay is a second wait of the order of d), judged only if canaries - timers of the same d armed next to the requests followed by a goroutine/lock/channel chain, and a sleep/hand-over loop - were late by less than an eighth of that tolerance; a replaced job never runs, a started job is never displaced, the newest accepted job runs unless canceled, nothing is left waiting; non-trivial = a burst of >=3 accepted requests or a timer that expired while the slot was busy; distinct by plan")
+func TestC07Real(t *testing.T) { realTimers(t, "C07") }
+
+// TestC03Real: the same cases decide a clause of C03 with the runner's real timers - no event, in particular no
+// reload of the start delay, leaves an accepted job waiting forever.
+func TestC03Real(t *testing.T) { realTimers(t, "C03") }
+
+func realTimers(t *testing.T, prop string) {
+	col := ev.Get(prop, "realtime", "real start-delay timers: delay d in [80,300] ms, bursts of 1-6 schedule requests with spacings drawn relative to d (inside / around / across the window), both strategies, queue limits, task durations 0-1.5d so that timers expire while the pipeline is busy, occasional cancels, requests made just before a start delay expires while a slow reader holds the runner's lock across the expiry (the request and the timer's callback queue up for the lock), and reloads that change nothing but the start delay (0, d/2, 2d: jobs accepted before keep their own delay and must still start); 16 cases run at the same time; oracle: first task begin >= instant before the request + d and start - created >= d (robust under load); start <= max(accept + d, previous job reported finished) + clamp(0.4 d, 40 ms, 120 ms) (an additional delay is a second wait of the order of d), judged only if canaries - timers of the same d armed next to the requests followed by a goroutine/lock/channel chain, and a sleep/hand-over loop - were late by less than an eighth of that tolerance; a replaced job never runs, a started job is never displaced, the newest accepted job runs unless canceled, nothing is left waiting; non-trivial = a burst of >=3 accepted requests or a timer that expired while the slot was busy; distinct by plan")
 	installHooks()
 	rapid.Check(t, func(rt *rapid.T) {
 		const batch = 16
@@ -394,13 +491,13 @@ func TestC07Real(t *testing.T) {
 		wg.Wait()
 		for i, c := range cases {
 			if len(c.errs) > 0 {
-				rt.Fatalf("[C07] case %d: %s", i, c.errs[0])
+				rt.Fatalf("["+prop+"] case %d: %s", i, c.errs[0])
 			}
 			v, judged, classes := c.check()
 			plan := fmt.Sprintf("d=%s replace=%v limit=%d task=%s: %s", c.d, c.replace, c.limit, c.taskDur, strings.Join(c.trace, ", "))
 			if len(v) > 0 {
-				logFailure("[C07] "+v[0], plan)
-				rt.Fatalf("[C07] %s  (plan: %s)", v[0], plan)
+				logFailure("["+prop+"] "+v[0], plan)
+				rt.Fatalf("["+prop+"] %s  (plan: %s)", v[0], plan)
 			}
 			if !judged {
 				col.AddInconclusive()
